@@ -242,7 +242,9 @@ class Exec:
             st["listed"] = set(self.listed())
             st["uids"] = {pid: w.procs[pid].uid for pid in st["listed"]}
             st["alive_all"] = set(st["listed"])
-            st["flagged0"] = set(self.flagged)
+            st["flagged0"] = set(self.flagged) | set(ps._pids_reused) | {
+                pid for pid, o in ps._pmap.items() if pid in w.procs and o._ident[1] is not None and
+                o._ident[1] != w.procs[pid].start / CLK_TCK + w.btime}
         out = outcome(next, st["g"])
         self.ref = None
         if out[0] == "exc":
@@ -251,6 +253,10 @@ class Exec:
             self.gens.pop(i)
             # exhausted: must have covered every pid listed at its start that stayed alive
             miss = [p for p in sorted(st["alive_all"]) if p not in st["yielded"] and p not in st["flagged0"]]
+            known = [p for p in sorted(st["alive_all"]) if p not in st["yielded"] and p in st["flagged0"]]
+            if known:
+                self.viol("iter-omits-recycled-pid-once",
+                          "generator did not yield listed pid(s) %r whose cached entry stood for the previous owner of the pid" % (known,))
             if miss:
                 self.viol("gen-missing", "generator listed %r at start, yielded %r; %r stayed alive throughout"
                           % (sorted(st["listed"]), st["yielded"], miss))
